@@ -192,6 +192,12 @@ Fixpoint rec_set (k : option Z) (v : list recipe_entry) (d : recipes_t) : recipe
   end.
 Definition rec_append (k : option Z) (e : recipe_entry) (d : recipes_t) : recipes_t :=
   rec_set k (match rec_get k d with Some v => v | None => [] end ++ [e]) d.
+(** `recipes.pop(key, None)` *)
+Fixpoint rec_del (k : option Z) (d : recipes_t) : recipes_t :=
+  match d with [] => [] | (k', v) :: r => if oz_eqb k k' then r else (k', v) :: rec_del k r end.
+(** `list(recipes.items())[list(recipes).index(key):]`; [None] = ValueError (no such key) *)
+Fixpoint rec_from (k : option Z) (d : recipes_t) : option recipes_t :=
+  match d with [] => None | (k', v) :: r => if oz_eqb k k' then Some d else rec_from k r end.
 
 (** the loop over `list(recipes.items())[len(branch_anchor):]` (lines 295-319) *)
 Inductive panchor := PAUnset | PAVal (k : option Z).
@@ -268,10 +274,12 @@ Definition close_branch (rest : pystr) (pos : nat) (st : rstate) : res (rstate *
                 end
               else Ok (s_recipes st, eon_a)) ;;
            eon_b <- fnc_from rest fnc_eon_b (eon_a + 1)%nat ;;
+           (* `first_recipe = list(recipes).index(prev_node)`: the slice starts at the entry of the closing anchor *)
+           items <- of_option (rec_from a recipes) EValue ;;
            n <- py_int_full (py_slice rest (eon_a + 2)%nat eon_b) ;;
            (* `base_anchor = prev_node` in front of the loop *)
            '(g, current, _, base_anchor) <-
-              exp_times (Z.to_nat (n - 1)) (skipn (length ba) recipes)
+              exp_times (Z.to_nat (n - 1)) items
                         (s_g st) (s_current st) a (Some a) ;;
            prev_node <- of_option base_anchor EUnbound ;;
            pbo <- (match nth_error rest eon_b with
@@ -308,7 +316,9 @@ Definition node_step (fo : float_oracle) (st : rstate) (prevc : ascii) (nm rest 
     (if Ascii.eqb prevc "("%char then
        (* dict(mol_graph.nodes[prev_node]): KeyError when there is no such node (also for None) *)
        a <- (match s_prev_node st with Some p => node_attrs (s_g st) p | None => Err EKey end) ;;
-       Ok (true, s_branch_anchor st ++ [s_prev_node st], rec_set (s_prev_node st) [(1, a, Some 1)] (s_recipes st))
+       (* `recipes.pop(prev_node, None)`: a further branch on the same anchor re-enters at the end of the table *)
+       Ok (true, s_branch_anchor st ++ [s_prev_node st],
+           rec_set (s_prev_node st) [(1, a, Some 1)] (rec_del (s_prev_node st) (s_recipes st)))
      else Ok (s_branching st, s_branch_anchor st, s_recipes st)) ;;
   (* 150-194 *)
   '(rs, rdx) <- ring_scan (s_current st) rest 0
